@@ -104,10 +104,10 @@ def gen_budget(g):
     g.sha = segment_sha(text, fn)
     kw = [k for n in ast.walk(fn) if isinstance(n, ast.Call) and ast.unparse(n.func) == "format_files" for k in n.keywords if k.arg == "max_passes"]
     ok = len(kw) == 1 and "MAX_MODULE_PASSES" in ast.unparse(kw[0].value)
-    g.oblige("table", "command-line-uses-the-module-pass-budget", [], z3.BoolVal(bool(ok)), fn.lineno)
+    g.oblige_text("table", "command-line-uses-the-module-pass-budget", bool(ok), fn.lineno)
     ff, _ = find_def("main", "format_files")
     rng = [n for n in ast.walk(ff) if isinstance(n, ast.For) and ast.unparse(n.iter) == "range(1, max_passes + 1)"]
-    g.oblige("table", "format_files-makes-at-most-max_passes-passes", [], z3.BoolVal(len(rng) == 1), ff.lineno)
+    g.oblige_text("table", "format_files-makes-at-most-max_passes-passes", len(rng) == 1, ff.lineno)
 
 
 # ----------------------------------------------------------------------------- fix.wrapper / chain.func_chain: the same cycle handling
